@@ -48,7 +48,14 @@ def gen(rng, thorough):
     ops += add_some(rng.randint(1, 4))
     if rng.random() < 0.7:
         ops += ["C", "L"]
-    if rng.random() < 0.2:
+    if rng.random() < 0.12 and owned:
+        # a user cancels everything it has, then the interval gets busy: the complete dump has no task of that user to see
+        quitter = rng.choice(sorted(set(owned.values())))
+        for u in sorted(x for x, o in owned.items() if o == quitter):
+            ops.append(request(quitter, [("cancel", u)])[0])
+            del owned[u]
+        ops += add_some(rng.randint(15, 18), [u for u in USERS[:3] if u != quitter])
+    elif rng.random() < 0.2:
         # a busy interval: more acknowledged connections than the 16 slots of the dirty list, the late ones from a
         # user who was not marked before (then only the complete dump can save that user's file)
         early = rng.sample(USERS[:3], rng.choice([1, 2]))
@@ -128,6 +135,9 @@ def check(ops, answer):
                 if uids != new and uids != old:
                     return "queue file of user %d holds %s: neither the previous checkpoint %s nor the accepted tasks %s" % (
                         u, sorted(uids), sorted(old), sorted(new))
+                if clean and not uids <= new:
+                    return "after a completed checkpoint the queue file of user %d still holds %s, cancelled or never accepted (accepted: %s)" % (
+                        u, sorted(uids - new), sorted(new))
                 live = {x for x in new if lastocc.get(x, 0) > now + 1}
                 if clean and not live <= uids:
                     return "after a completed checkpoint the queue file of user %d holds %s, the accepted tasks still to run are %s" % (
